@@ -38,6 +38,8 @@ def run(chk, scratch):
     for seed in sorted(set(j[0] for j in jobs)):
         d = os.path.join(scratch, "w%d" % seed)
         w = world2.split_locus_world(seed) if seed >= 9000 else noisy_world(seed)
+        if seed % 2 == 1 and seed < 9000:
+            world2.strip_tails(w)          # polyA-trimmed data: no polyA requirement, ends defined by read starts/ends only
         pipeline.write_world(w, d)
         worlds[seed] = (d, w)
 
@@ -45,8 +47,9 @@ def run(chk, scratch):
         seed, st, dt, annotated = job
         d, w = worlds[seed]
         out = os.path.join(d, "out_%s_%s_%s" % (st, dt, annotated))
+        pr = ["--polya_requirement", "never"] if (seed + len(st) + len(dt)) % 2 == 0 else []
         r = pipeline.run(d, out, data_type=dt, threads=2, annotated=annotated, home=out + "_home",
-                         extra=["--model_construction_strategy", st, "--report_novel_unspliced", "true"])
+                         extra=["--model_construction_strategy", st, "--report_novel_unspliced", "true"] + pr)
         return job, out, r
     novel_total = 0
     kinds = defaultdict(int)
